@@ -66,6 +66,15 @@ def run_congruence(case):
     per = np.array([float(np.max(np.abs(cr[g] - C.T @ chol[g] @ C))) for g in range(chol.shape[0])])
     r2 = float(per.max())
     events.append(judge("rotate/chol-congruence", r2 / sc, 1e-12, "C15/rotate/chol", nchol=int(chol.shape[0]), worst_vector=int(per.argmax())))
+    # the same with the Cholesky vectors stored in another dtype (single precision files, integer lattice-model vectors such as
+    # sqrt(U) e_g e_g^T with U = 4): the rotated vectors are C^T L C of the values that were stored, not a truncation of it
+    for nm_, st_ in (("float32", np.float32), ("integer", np.int64)):
+        ch_s = (np.round(chol * 3.0) if nm_ == "integer" else chol).astype(st_)
+        hd_s = {"h0": jnp.array(0.3), "h1": jnp.array(h1), "chol": jnp.array(ch_s.reshape(-1, n * n)), "ene0": 0.0}
+        cr_s = np.asarray(ham.rotate_orbs(hd_s, jnp.array(C))["chol"], dtype=float).reshape(-1, n, n)
+        ref_s = np.array([C.T @ ch_s[g].astype(float) @ C for g in range(ch_s.shape[0])])
+        events.append(judge("rotate/chol-congruence-other-storage-dtype", float(np.max(np.abs(cr_s - ref_s))) / (sc * (3.0 if nm_ == "integer" else 1.0)), 1e-12,
+                            "C15/rotate/chol-" + nm_, stored_as=nm_))
     events.append(ev("rotate/shapes", bool(np.asarray(out["chol"]).shape == (case["nchol"], n * n) and h1r.shape == (2, n, n)), key="C15/rotate/shapes"))
     events.append(ev("rotate/h0-untouched", bool(float(out["h0"]) == 0.3), key="C15/rotate/h0"))
     return {"events": events, "nontrivial": True, "sample": {"norb": n, "nchol": case["nchol"], "h1_resid": r1, "chol_resid": r2},
